@@ -929,7 +929,11 @@ impl Vm {
           ),
         )
       },
-      ImportResult::CompileError => ExecutionSignal::Exit,
+      ImportResult::CompileError => {
+        // the diagnostics were already reported, end with the compile error status
+        self.exit_code = 1;
+        ExecutionSignal::Exit
+      },
     };
 
     self.pop_roots(2);
@@ -1011,7 +1015,11 @@ impl Vm {
           ),
         )
       },
-      ImportResult::CompileError => ExecutionSignal::Exit,
+      ImportResult::CompileError => {
+        // the diagnostics were already reported, end with the compile error status
+        self.exit_code = 1;
+        ExecutionSignal::Exit
+      },
     };
 
     self.pop_roots(2);
